@@ -15,6 +15,10 @@ LEVEL = {
  "C18": ("bounded symbolic model checking of the segment tree (build+query) against the union-of-ranges definition for arbitrary 32-bit endpoints", "4 C18"),
  "C15": ("bounded symbolic model checking of the UDP announce packet construction against the BEP 15 byte layout written independently (all field values symbolic)", "4 C15"),
  "C08": ("bounded symbolic model checking of the input-validation units a peer's bytes reach first (bitfield construction, metadata block accounting, compact address decoding): arbitrary bytes/fields within the stated sizes never panic and are rejected or consistent. The stream reader and the message handlers are not covered yet.", "4 C08"),
+ "C07": ("bounded symbolic model checking of the real NewInfo -> FileStorage.Open path computation and of readData with symbolic ASCII strings (real strings/path/filepath code executed from SSA); every path that would be created/opened is captured by recorders and checked against the data directory", "4 C07"),
+ "C11": ("bounded symbolic model checking of the real writer and reader goroutines (cooperative scheduling, select forks) against BEP byte layouts written independently, and of the writer->reader round trip under symbolic fragmentation", "4 C11"),
+ "C05": ("only the durability precondition so far: every data-file open carries O_SYNC (symbolic execution of FileStorage.Open with os.OpenFile recorded). Crash-point reasoning over the write/persist order is not built yet.", "4 C05"),
+ "C04": ("bounded symbolic model checking of the real torrent lifecycle handlers: all event sequences up to the stated length from a freshly constructed torrent (real newTorrent), with symbolic worker results, checking a written lifecycle invariant after every event", "4 C04"),
 }
 NOTE = "trusted base: go/packages+go/ssa (x/tools v0.50.0) reading of the source, the engine's instruction semantics (validated by native replay of sampled paths and of every counterexample), z3 4.8.12 / z3 5.1.0 / cvc5 1.0.3; named stubs listed in the evidence file; bounds as stated per harness in the evidence; anything beyond the bounds is outside the claim"
 
